@@ -83,6 +83,32 @@ theorem C15_gen_get_file (s : State) (F x : Name) (incl : Bool) :
   · cases getFolder s F incl <;> rfl
   · cases getFolder s F false <;> rfl
 
+/-- **The closure `_file_action`** (route `["file", F, x, …]`), read from the source: it looks the file up with the TRANSLATED `get_file` on
+`request[0]`, `request[1]` (live only — the model's `getFile`), consumes exactly two options and hands the rest to THAT file's own request
+manager; the model's step for `fsFileVerb` is that composition (the `none` branch is the route's `_file_exists` validator, which refuses
+before the closure would raise on `None`). Replaces the text pin of the closure (second shift of round 7). -/
+theorem C15_gen_file_action (s : State) (F x : Name) (v : Verb) :
+    hFileActionConsumed = 2 ∧ hFileActionTarget s F x = getFile s F x ∧
+    step s (.fsFileVerb F x v) =
+      (match getFolder s F with
+       | none => (s, .failure)
+       | some g =>
+         match hFileActionTarget s F x with
+         | none => (s, .failure)
+         | some f =>
+           match f.verb v with
+           | none => (s, .unreachable)
+           | some (f', b) =>
+             (updFolder s g.id (fun g => { g with files := g.files.map (fun y => if y.id == f.id then f' else y) }), ofBool b)) := by
+  have h2 := (C15_gen_get_file s F x false).2
+  refine ⟨rfl, ?_, ?_⟩
+  · unfold hFileActionTarget; exact h2
+  · unfold hFileActionTarget
+    rw [h2]
+    show fsFileVerb s F x v = _
+    unfold fsFileVerb getFile
+    cases getFolder s F <;> rfl
+
 /-- **`FileSystem.create_folder` as translated from the source is the model's `createFolder`**, state and returned folder, for every
 state and name: an existing live folder is re-stored under its own uuid (no second entry, no new route, no new uuid), a missing one
 is created with a fresh uuid and its route; the default restore duration, when set, lands on the STORED object (the assignment comes
